@@ -120,17 +120,20 @@ def run(pid, tier='quick', seed=None, replay=None):
             try:
                 cfg = dict(cfg)
                 defines = tuple(cfg.pop('defines', ('M4RI_VERIF',)))
+                cfg_env = cfg.pop('env', None)
                 bld = B.Build(cfg=cfg, sanitize=san, defines=defines)
             except Exception as e:
                 violations.append(('build', dict(kind='tie-broken', what='library or harness does not build',
                                                  error=str(e)[-3000:], config=cfg)))
                 continue
             try:
-                env = {'ASAN_OPTIONS': 'detect_leaks=0:abort_on_error=1', 'UBSAN_OPTIONS': 'print_stacktrace=1'} if san else None
+                env = {'ASAN_OPTIONS': 'detect_leaks=0:abort_on_error=0:exitcode=99', 'UBSAN_OPTIONS': 'print_stacktrace=1:exitcode=99', 'TSAN_OPTIONS': 'exitcode=66'} if san else None
+                if cfg_env:
+                    env = dict(env or {}, **cfg_env)
                 res = core.correspond(bld, lines, harness_args=hargs, env=env)
             finally:
                 bld.remove()
-            cfg_names.append(B.cfg_name(cfg) + ('+' + san if san else '') + (' ' + ' '.join(hargs) if hargs else '') + (' ' + ' '.join(defines[1:]) if len(defines) > 1 else ''))
+            cfg_names.append(B.cfg_name(cfg) + ('+' + san if san else '') + (' ' + ' '.join(hargs) if hargs else '') + (' ' + ' '.join(defines[1:]) if len(defines) > 1 else '') + (' ' + ' '.join('%s=%s' % kv for kv in sorted(cfg_env.items())) if cfg_env else ''))
             total += res['n']
             total_spec += res['nspec']
             for l in lines:
